@@ -6,8 +6,9 @@ package shared
 // last `endobj` before the next line-initial marker, and a small recursive
 // tokeniser splits each object into the token classes SeqScan.tla speaks
 // about.  Sound only for files whose stream bodies and strings contain no
-// line-initial object header / xref / trailer / startxref / %%EOF (the
-// generator guarantees it).
+// line-initial object header (the generator guarantees it); lines starting
+// with xref / trailer / startxref / %%EOF inside objects are allowed and are
+// not reported as markers.
 
 import (
 	"bytes"
@@ -104,7 +105,11 @@ func ScanLayout(d []byte) (*Layout, error) {
 	lay := &Layout{Size: int64(len(d))}
 	type hdr struct{ num, gen, start, hend int }
 	var hdrs []hdr
-	var bounds []int // starts of line-initial markers of any kind, ascending
+	type word struct {
+		w    string
+		p, e int
+	}
+	var words []word // line-initial trailer keywords, inside stream bodies or not
 	for p := 0; p < len(d); p++ {
 		if p > 0 && d[p-1] != '\n' && d[p-1] != '\r' {
 			continue
@@ -112,30 +117,53 @@ func ScanLayout(d []byte) (*Layout, error) {
 		if isDigit(d[p]) {
 			if n, g, e, ok := matchHeader(d, p); ok {
 				hdrs = append(hdrs, hdr{n, g, p, e})
-				bounds = append(bounds, p)
 			}
 			continue
 		}
 		for _, w := range []string{"xref", "trailer", "startxref", "%%EOF"} {
 			if bytes.HasPrefix(d[p:], []byte(w)) && (p+len(w) == len(d) || !isRegular(d[p+len(w)]) || w == "%%EOF") {
-				lay.Markers = append(lay.Markers, Marker{w, int64(p), int64(p + len(w))})
-				bounds = append(bounds, p)
+				words = append(words, word{w, p, p + len(w)})
 			}
 		}
 	}
-	for _, h := range hdrs {
+	// an object extends from its header to the last "endobj" before the next
+	// header (stream bodies contain no line-initial header, but may contain
+	// "endobj" and lines starting with a trailer keyword)
+	ends := make([]int, len(hdrs))
+	for i, h := range hdrs {
 		limit := len(d)
-		for _, b := range bounds {
-			if b > h.start {
-				limit = b
-				break
-			}
+		if i+1 < len(hdrs) {
+			limit = hdrs[i+1].start
 		}
 		e := bytes.LastIndex(d[h.hend:limit], []byte("endobj"))
 		if e < 0 {
 			return nil, fmt.Errorf("layout: object %d %d at %d has no endobj", h.num, h.gen, h.start)
 		}
-		end := h.hend + e + 6
+		ends[i] = h.hend + e + 6
+	}
+	// the markers of the file are the keywords outside all objects
+	for _, w := range words {
+		inside := false
+		for i, h := range hdrs {
+			if w.p >= h.start && w.p < ends[i] {
+				inside = true
+			}
+		}
+		if !inside {
+			lay.Markers = append(lay.Markers, Marker{w.w, int64(w.p), int64(w.e)})
+		}
+	}
+	for i, h := range hdrs {
+		end := ends[i]
+		limit := len(d)
+		if i+1 < len(hdrs) {
+			limit = hdrs[i+1].start
+		}
+		for _, m := range lay.Markers {
+			if int(m.Start) >= end && int(m.Start) < limit {
+				limit = int(m.Start)
+			}
+		}
 		for _, c := range d[end:limit] {
 			if !isWS(c) {
 				return nil, fmt.Errorf("layout: junk after endobj of object %d %d", h.num, h.gen)
